@@ -4,7 +4,7 @@ mod props;
 fn main() {
     let ctx = engine::Ctx::from_args();
     match ctx.id.as_str() {
-        // "C39" => props::c39::run(ctx),
+        "C39" => props::c39::run(ctx),
         other => engine::harness_error(&format!("property {other} is not served by verif-spaces")),
     }
 }
